@@ -8,6 +8,7 @@ import (
 	"bytes"
 	"fmt"
 	"reflect"
+	"strings"
 	"testing"
 
 	"pgregory.net/rapid"
@@ -307,6 +308,78 @@ func relatedValue(rt *rapid.T, v *Value) *Value {
 	return c
 }
 
+// stepOneNumber changes one plain number of v by +-1 (a sequence number, an index).
+func stepOneNumber(rt *rapid.T, v *Value) {
+	ts := Types[v.Type]
+	var idx []int
+	for i, f := range ts.Fields {
+		if f.Kind == "num" && f.Go != discOf(ts) {
+			idx = append(idx, i)
+		}
+	}
+	if len(idx) == 0 {
+		return
+	}
+	i := idx[rapid.IntRange(0, len(idx)-1).Draw(rt, "stepfield")]
+	if rapid.Bool().Draw(rt, "stepdown") {
+		v.F[i].N = (v.F[i].N + 1) & NMask(ts.Fields[i].NType) // the earlier message had the next value: i.e. this one is "one lower"
+	} else {
+		v.F[i].N = (v.F[i].N - 1) & NMask(ts.Fields[i].NType)
+	}
+}
+
+var moduleTypesCache = map[string][]string{}
+
+func moduleTypes(m string) []string {
+	if l, ok := moduleTypesCache[m]; ok {
+		return l
+	}
+	var l []string
+	for _, tn := range TypeNames {
+		if Types[tn].Module == m {
+			l = append(l, tn)
+		}
+	}
+	moduleTypesCache[m] = l
+	return l
+}
+
+func fieldStem(name string) string {
+	n := strings.ToLower(name)
+	for _, p := range []string{"orig", "new", "old", "prev", "ref"} {
+		n = strings.TrimPrefix(n, p)
+	}
+	return n
+}
+
+// correlate copies into dst the values of src's fields that have the same name (ignoring an Orig/New/... prefix)
+// and kind: an order and its cancel request, a report and its acknowledgement, carry the same identifiers.
+func correlate(dst, src *Value) {
+	ds, ss := Types[dst.Type], Types[src.Type]
+	for i, df := range ds.Fields {
+		if df.Go == discOf(ds) {
+			continue
+		}
+		for j, sf := range ss.Fields {
+			if fieldStem(df.Go) != fieldStem(sf.Go) || df.Kind != sf.Kind {
+				continue
+			}
+			switch df.Kind {
+			case "num":
+				dst.F[i].N = src.F[j].N & NMask(df.NType)
+			case "fixtext":
+				t := src.F[j].T
+				if len(t) > df.Width {
+					t = t[:df.Width]
+				}
+				dst.F[i].T = refFixedRead(refFixedWrite(t, df.Width, byte(df.Pad), df.Left), byte(df.Pad), df.Left)
+			case "text":
+				dst.F[i].T = append(HexBytes{}, src.F[j].T...)
+			}
+		}
+	}
+}
+
 func discOf(ts *TypeSchema) string {
 	if di := ts.DynIndex(); di >= 0 {
 		return ts.Fields[di].Disc
@@ -403,9 +476,10 @@ func TestC15(t *testing.T) {
 // ---------------------------------------------------------------- C16
 
 type CaseC16 struct {
-	Type  string `json:"type"`
-	V     *Value `json:"v"`
-	Other *Value `json:"other"`
+	Type  string  `json:"type"`
+	V     *Value  `json:"v"`
+	Other *Value  `json:"other"`
+	Pre   []PreOp `json:"pre,omitempty"` // prior calls: often a decode of a RELATED message (same type with one number stepped, or another type of the protocol carrying the same values in its like-named fields)
 }
 
 // scramble changes a library object in place: every number, every list element,
@@ -438,6 +512,7 @@ func scramble(rv reflect.Value, depth int) {
 }
 
 func oracleC16(c *CaseC16) *Failure {
+	defer runPrelude(c.Pre)()
 	sig := "C16/" + c.Type
 	// encode side first: the very first library call on this value writes into a buffer the harness owns
 	obj2 := ToStruct(c.V)
@@ -521,6 +596,19 @@ func TestC16(t *testing.T) {
 				v, ft := GenValue(rt, tn, o)
 				ov, _ := GenValue(rt, tn, o)
 				c := &CaseC16{Type: tn, V: v, Other: ov}
+				switch rapid.IntRange(0, 5).Draw(rt, "prior") {
+				case 0: // the previous message of the same type: identical but for one number stepped by one
+					pv := v.Clone()
+					stepOneNumber(rt, pv)
+					c.Pre = []PreOp{{Kind: "dec", Type: tn, W: Render(pv, nil).Bytes}}
+				case 1: // a message of another type of the protocol whose like-named fields carry the same values
+					ot := rapid.SampledFrom(moduleTypes(Types[tn].Module)).Draw(rt, "othertype")
+					pv, _ := GenValue(rt, ot, o)
+					correlate(pv, v)
+					c.Pre = []PreOp{{Kind: "dec", Type: ot, W: Render(pv, nil).Bytes}}
+				case 2:
+					c.Pre, _ = genPrelude(rt, tn, false)
+				}
 				nt := ft.TextOrList > 0
 				cls := []string{}
 				if nt {
